@@ -240,7 +240,7 @@ func AnalyzeRun(p *load.Program, r *Roles, depth int) *RunResult {
 				InitFacts:        nodeKindAssumer(r, bc),
 				Monitors:         []eng.Monitor{life, batch},
 				DropReturnStates: true, IndexEvents: true,
-				MaxStates:        100000, SharedStates: &shared, SharedMax: 1200000,
+				MaxStates: 100000, SharedStates: &shared, SharedMax: 1200000,
 				DebugFn: DebugFn, DebugBlock: DebugBlock,
 			}
 			e = eng.New(cfg)
